@@ -229,7 +229,8 @@ type Sched struct {
 	nfail    int
 	objXor   uint64
 	useMark  bool
-	dirty    []*Obj // value-keyed objects whose real state changes after the point (atomic words)
+	dirty    []*Obj                 // value-keyed objects whose real state changes after the point (atomic words)
+	chans    map[uintptr]*chanModel // modelled channels (chan.go), scheduler goroutine only
 }
 
 var execSync byte
